@@ -1,4 +1,4 @@
-package c03
+package c05
 
 // Independent NACHA control arithmetic.  Nothing in this file calls a helper
 // of the library under test: padding, the 3-7-1 check digit, the credit/debit
@@ -328,64 +328,9 @@ func fixFile(f *ach.File) {
 	*c.count, *c.hash, *c.deb, *c.cred = cnt, ((h%hashMod)+hashMod)%hashMod, d, cr
 }
 
-// finding is one violated clause of the property.
+// finding is one violated clause.
 type finding struct {
 	sig, what, observed, required string
-}
-
-// checkFile recomputes everything the property lists for a file on which
-// Validate() returned nil.
-func checkFile(f *ach.File) []finding {
-	var out []finding
-	add := func(sig, what string, obs, req any) {
-		out = append(out, finding{sig, what, fmt.Sprint(obs), fmt.Sprint(req)})
-	}
-	vs := views(f)
-	fk := "file"
-	if isADVFile(f) {
-		fk = "file-ADV"
-	}
-	c := control(f)
-	cnt, h, d, cr := 0, 0, 0, 0
-	for _, v := range vs {
-		cnt += *v.cnt
-		h += *v.hash
-		d += *v.deb
-		cr += *v.cred
-	}
-	if *c.batches != len(vs) {
-		add("C03/"+fk+"/batch-count", "file control batch count differs from the number of batches", *c.batches, len(vs))
-	}
-	if *c.count != cnt {
-		add("C03/"+fk+"/entry-addenda-count", "file control entry/addenda count differs from the sum over the batch controls", *c.count, cnt)
-	}
-	if want := ((h % hashMod) + hashMod) % hashMod; *c.hash != want {
-		add("C03/"+fk+"/entry-hash", "file control entry hash differs from the sum of the batch hashes modulo 10^10", *c.hash, want)
-	}
-	if *c.deb != d {
-		add("C03/"+fk+"/total-debit", "file control debit total differs from the sum over the batch controls", *c.deb, d)
-	}
-	if *c.cred != cr {
-		add("C03/"+fk+"/total-credit", "file control credit total differs from the sum over the batch controls", *c.cred, cr)
-	}
-	for _, v := range vs {
-		for _, fd := range checkBatch(v) {
-			sig := "C03/" + v.kind + "/" + fd.sig
-			what := fmt.Sprintf("%s batch #%d (%s): %s", v.kind, v.idx, v.sec, fd.what)
-			if v.kind != "std" {
-				// File.Validate is expected to have validated this batch.  If the
-				// batch's own Validate rejects it, the root cause is that the file
-				// level never asked (one signature per batch kind); otherwise the
-				// batch level validation itself let the mismatch through.
-				if err := safely(v.validate); err != nil {
-					sig = "C03/file-validate-skips-batch/" + v.kind
-					what += "; the batch's own Validate() rejects it: " + err.Error()
-				}
-			}
-			out = append(out, finding{sig, what, fd.observed, fd.required})
-		}
-	}
-	return out
 }
 
 func safely(fn func() error) (err error) {
@@ -397,30 +342,18 @@ func safely(fn func() error) (err error) {
 	return fn()
 }
 
-// checkBatch checks the batch-level clauses; signatures are relative ("entry-hash").
-func checkBatch(v batchV) []finding {
+// checkControl compares a batch control with the values recomputed from the entries.
+func checkControl(v batchV) []finding {
 	var out []finding
 	add := func(sig, what string, obs, req any) {
 		out = append(out, finding{sig, what, fmt.Sprint(obs), fmt.Sprint(req)})
 	}
 	t := recompute(v)
-	short := ""
-	for _, e := range v.entries {
-		if len([]rune(*e.rdfi)) != 8 {
-			short = "/rdfi-not-8-columns"
-		}
-	}
-	if t.badCode > 0 {
-		add("transaction-code-unclassifiable", "an accepted entry has a transaction code that is neither a credit nor a debit code", t.badCode, 0)
-	}
-	if t.badRDFI > 0 {
-		add("rdfi-not-numeric", "an accepted entry has a receiving routing prefix that is not 8 digits", t.badRDFI, 0)
-	}
 	if *v.cnt != t.count {
 		add("entry-addenda-count", "batch control entry/addenda count differs from the records in the batch", *v.cnt, t.count)
 	}
 	if t.badRDFI == 0 && *v.hash != t.hash {
-		add("entry-hash"+short, "batch control entry hash differs from the sum of the 8-digit receiving routing numbers modulo 10^10", *v.hash, t.hash)
+		add("entry-hash", "batch control entry hash differs from the sum of the 8-digit receiving routing numbers modulo 10^10", *v.hash, t.hash)
 	}
 	if t.badCode == 0 && t.foreign == 0 {
 		if *v.deb != t.debit {
@@ -431,54 +364,46 @@ func checkBatch(v batchV) []finding {
 		}
 	}
 	if *v.hSCC != *v.cSCC {
-		add("header-control/service-class", "header and control service class differ", *v.cSCC, *v.hSCC)
+		add("service-class", "header and control service class differ", *v.cSCC, *v.hSCC)
 	}
 	if padLeft(*v.hODFI, 8) != padLeft(*v.cODFI, 8) {
-		add("header-control/odfi", "header and control ODFI differ", *v.cODFI, *v.hODFI)
+		add("odfi", "header and control ODFI differ", *v.cODFI, *v.hODFI)
 	}
 	if *v.hNum != *v.cNum {
-		add("header-control/batch-number", "header and control batch number differ", *v.cNum, *v.hNum)
+		add("batch-number", "header and control batch number differ", *v.cNum, *v.hNum)
 	}
-	prev := ""
-	for i, e := range v.entries {
-		if _, ok := rdfi8(*e.rdfi); ok {
-			want := check371(padLeft(*e.rdfi, 8))
-			cd := *e.check
-			if len(cd) != 1 || cd[0] < '0' || cd[0] > '9' {
-				add("check-digit/not-a-digit", fmt.Sprintf("entry %d: check digit is not a digit", i), fmt.Sprintf("%q", cd), want)
-			} else if int(cd[0]-'0') != want {
-				add("check-digit", fmt.Sprintf("entry %d: check digit does not match routing prefix %s", i, padLeft(*e.rdfi, 8)), cd, want)
-			}
-		}
-		if e.trace != nil {
-			tr := padLeft(*e.trace, 15)
-			sh := ""
-			if len([]rune(*e.trace)) != 15 {
-				sh = "/trace-not-15-columns"
-			}
-			if tr[:8] != padLeft(*v.hODFI, 8) {
-				add("trace-odfi-prefix"+sh, fmt.Sprintf("entry %d: trace number does not begin with the batch ODFI", i), tr, padLeft(*v.hODFI, 8)+"…")
-			}
-			if i > 0 && !(tr > prev) {
-				add("trace-ascending"+sh, fmt.Sprintf("entry %d: trace number does not exceed its predecessor", i), tr, "> "+prev)
-			}
-			prev = tr
-		}
-		if v.kind == "std" {
-			if *e.amount < 0 {
-				add("amount-negative", fmt.Sprintf("entry %d: negative amount", i), *e.amount, ">= 0")
-			}
-			if *e.amount > 9_999_999_999 {
-				add("amount-overflows-field", fmt.Sprintf("entry %d: amount does not fit 10 digits", i), *e.amount, "<= 9999999999")
-			}
-			dir := direction(v.kind, *e.code)
-			if *v.hSCC == ach.CreditsOnly && dir == "D" {
-				add(fmt.Sprintf("service-class/220-holds-debit/code=%d", *e.code), fmt.Sprintf("entry %d: debit entry in a credits-only batch", i), *e.code, "a credit code")
-			}
-			if *v.hSCC == ach.DebitsOnly && dir == "C" {
-				add(fmt.Sprintf("service-class/225-holds-credit/code=%d", *e.code), fmt.Sprintf("entry %d: credit entry in a debits-only batch", i), *e.code, "a debit code")
-			}
-		}
+	return out
+}
+
+// checkFileControl compares the file control with the sums over the batch controls.
+func checkFileControl(f *ach.File) []finding {
+	var out []finding
+	add := func(sig, what string, obs, req any) {
+		out = append(out, finding{sig, what, fmt.Sprint(obs), fmt.Sprint(req)})
+	}
+	vs := views(f)
+	c := control(f)
+	cnt, h, d, cr := 0, 0, 0, 0
+	for _, v := range vs {
+		cnt += *v.cnt
+		h += *v.hash
+		d += *v.deb
+		cr += *v.cred
+	}
+	if *c.batches != len(vs) {
+		add("batch-count", "file control batch count differs from the number of batches", *c.batches, len(vs))
+	}
+	if *c.count != cnt {
+		add("entry-addenda-count", "file control entry/addenda count differs from the sum over the batch controls", *c.count, cnt)
+	}
+	if want := h % hashMod; *c.hash != want {
+		add("entry-hash", "file control entry hash differs from the sum of the batch hashes modulo 10^10", *c.hash, want)
+	}
+	if *c.deb != d {
+		add("total-debit", "file control debit total differs from the sum over the batch controls", *c.deb, d)
+	}
+	if *c.cred != cr {
+		add("total-credit", "file control credit total differs from the sum over the batch controls", *c.cred, cr)
 	}
 	return out
 }
